@@ -12,6 +12,9 @@ Mirrors, function by function:
   crates/trust-runtime/src/runtime/core.rs       `apply_fault` for the default policy (Halt: no safe state)
   crates/trust-runtime/src/debug/control.rs      `force_io`, `release_io`
   crates/trust-runtime/src/value/partial_access.rs  `read_partial_access`, `write_partial_access`
+  crates/trust-runtime/src/harness/io.rs         `collect_io_bindings`, `offset_address`, `io_size_for_type`
+                                                 (elementary types, 1-D arrays, flat structures; flat base)
+  crates/trust-runtime/src/value/size.rs         `size_of_type` for those types
 
 Conventions: a byte is a `Nat` below 256, an image is a `List Nat`; fixed-width Rust integers are
 `Nat`/`Int` payloads whose range is the invariant `Value.WF` (guaranteed by the Rust types).
